@@ -51,6 +51,29 @@ Points == << <<R(3), R(4), R(12)>>,
              << <<-12, 5>>, <<9, 5>>, R(4) >>,
              << R(8), R(-6), <<-15, 2>> >> >>
 
+\* one exact point in every octant (rho = 5, r = 13 everywhere)
+SignPoints == [i \in 1..8 |-> <<R(IF (i - 1) % 2 = 0 THEN 3 ELSE -3), R(IF ((i - 1) \div 2) % 2 = 0 THEN 4 ELSE -4),
+                                R(IF (i - 1) \div 4 = 0 THEN 12 ELSE -12)>>]
+
+-----------------------------------------------------------------------------
+(* Fields with an absolute value of a signed coordinate:  f = m * |x_v|^k  (k odd), written smoothly as     *)
+(* m * (x_v^2)^(k/2).  On the half-space of a point pt (pt[v] # 0) the field IS the polynomial               *)
+(* sign(pt[v]) * m * x_v^k, so its gradient there is the gradient of that polynomial.  For k >= 3 the field   *)
+(* is twice differentiable everywhere (AbsSmooth: both half-space polynomials agree up to second order on     *)
+(* x_v = 0).                                                                                                *)
+KVec(v, k) == <<IF v = 1 THEN k ELSE 0, IF v = 2 THEN k ELSE 0, IF v = 3 THEN k ELSE 0>>
+AbsHalf(p, v, k, sign) == PScale(R(sign), PMulMono(p, KVec(v, k)))
+AbsLocal(p, v, k, pt)  == AbsHalf(p, v, k, RSign(pt[v]))
+AbsFits(p, v, k)       == MulFits(p, KVec(v, k))
+AbsFields == {a \in [e : {m \in Exps : TotDeg(m) <= 1}, v : Vars, k : {3}] : a.e[a.v] + a.k <= D}
+ASSUME AbsSmooth ==
+  \A a \in AbsFields : \A w, u \in Vars :
+     LET plus == AbsHalf(PMono(a.e, ROne), a.v, a.k, 1)  minus == AbsHalf(PMono(a.e, ROne), a.v, a.k, -1)
+         on0(q) == PRestrict(q, a.v, RZero) IN
+     /\ on0(plus) = on0(minus)
+     /\ on0(PDiff(plus, w)) = on0(PDiff(minus, w))
+     /\ on0(PDiff(PDiff(plus, w), u)) = on0(PDiff(PDiff(minus, w), u))
+
 -----------------------------------------------------------------------------
 (* The fields.                                                              *)
 Monos(d) == {e \in Exps : TotDeg(e) <= d}
@@ -138,4 +161,12 @@ Emit == Emitted =>
     ELSE [kind |-> "v", terms |-> terms, pts |-> Points,
           div  |-> [k \in DOMAIN Points |-> PEval(Div(fld), Points[k])],
           curl |-> [k \in DOMAIN Points |-> VEval(Curl(fld), Points[k])]]))
+
+\* emission of the absolute-value fields (once): gradient at the points of all octants
+AbsEmit ==
+  (kind = "s" /\ Len(terms) = 1 /\ terms[1].e = <<0, 0, 0>>) =>
+     \A a \in AbsFields :
+        PrintT(ToJson([abs |-> a, pts |-> SignPoints,
+                       grad |-> [i \in DOMAIN SignPoints |->
+                                   VEval(Grad(AbsLocal(PMono(a.e, ROne), a.v, a.k, SignPoints[i])), SignPoints[i])]]))
 =============================================================================
